@@ -1,7 +1,9 @@
 """check.py <ID> [quick|thorough] [--replay PATH]  -- see bin/check"""
 import importlib
 import os
+import signal
 import sys
+import threading
 import traceback
 
 import vcommon
@@ -65,5 +67,36 @@ def main(argv):
         return 2
 
 
+def _cleanup_group():
+    """no worker process or TLC instance may outlive the check"""
+    try:
+        signal.signal(signal.SIGTERM, signal.SIG_IGN)
+        os.killpg(os.getpgrp(), signal.SIGTERM)
+    except Exception:
+        pass
+
+
+def _watchdog(seconds):
+    def fire():
+        print(f"MACHINERY-ERROR check exceeded its time limit of "
+              f"{seconds} s", flush=True)
+        _cleanup_group()
+        os._exit(2)
+    t = threading.Timer(seconds, fire)
+    t.daemon = True
+    t.start()
+
+
 if __name__ == "__main__":
-    sys.exit(main(sys.argv[1:]))
+    try:
+        os.setpgrp()
+    except Exception:
+        pass
+    _watchdog(int(os.environ.get("VERIF_TIMEOUT", "5400")))
+    rc = 2
+    try:
+        rc = main(sys.argv[1:])
+    finally:
+        sys.stdout.flush()
+        _cleanup_group()
+    os._exit(rc)
